@@ -10,7 +10,9 @@
 //!      combinations x {0, 2} points) / create_from_indices (3 index lists) from each of 12 starting clouds (try_new with
 //!      every presence combination x {0, 2} points, empty(..) with every combination), plus try_new over all 3x3x3
 //!      presence / length combinations, compared step by step with a three-array model;
-//!  (d) Distance::{new, value, reversed} on integer points with 9 directions (2D and 3D); point_curve2_deviation /
+//!  (d) Distance::{new, value, reversed} on integer points with 9 directions (2D and 3D), and on end points offset by
+//!      1e3 and 1e6 from the origin at separations 1e-3..1 (value == projection of b-a within 1e-12 of the separation,
+//!      unchanged under reversal); point_curve2_deviation /
 //!      line_surface_deviations on a closed CCW square of side 4 and an open L-shaped polyline, and
 //!      Mesh::measure_point_deviation (both modes) on a 4x4x4 box: measured points on both sides of edge / face
 //!      interiors, off corners (and box edges) and beyond the ends of the open curve, at distances 1e-7, 1e-5, 1e-4,
@@ -424,6 +426,53 @@ fn distances(r: &mut Report) {
     } }
 }
 
+/// (d') end points far from the origin: a = offset (|a| ~ 1e3, 1e6), b = a + s*v for separations |s| in {1e-3, 1e-2, 0.1, 1}
+/// along and against v; b - a is exact in floating point (Sterbenz), so the projection of b-a on the direction is known
+/// to ~1e-16 relative to the separation: the value must agree with it within 1e-12 * |b - a| (a value computed from the
+/// separate projections of a and b is off by ~|a| * 1e-16, i.e. 1e-7 relative to a separation of 1e-3 at |a| = 1e6).
+fn far_distances(r: &mut Report) {
+    let offs3 = [Vector3::new(1.0, 1.0, 1.0), Vector3::new(1.0, -0.5, 0.25), Vector3::new(-0.75, 0.0, 1.0), Vector3::new(0.3, 0.7, -0.9)];
+    let dirs3 = [Vector3::new(1.0, 0.0, 0.0), Vector3::new(0.0, -1.0, 0.0), Vector3::new(0.6, 0.8, 0.0), Vector3::new(1.0, 1.0, 1.0), Vector3::new(-1.0, 2.0, -2.0), Vector3::new(3.0, 0.0, -4.0)];
+    let seps = [1e-3, 1e-2, 0.1, 1.0];
+    for scale in [1e3, 1e6] { for o in offs3.iter() { for v in dirs3.iter() { for s in seps.iter() { for sign in [1.0, -1.0] {
+        let a = Point3::from(o * scale);
+        let b = a + v.normalize() * (*s * sign);
+        let w = b - a;
+        for k in 0..=dirs3.len() {
+            let dir = if k == 0 { None } else { Some(UnitVec3::new_normalize(dirs3[k - 1])) };
+            r.case();
+            let how = || format!("Distance3::new({:?}, {:?}, {:?}) (|a| ~ {:e}, separation {:e})", a.coords.as_slice(), b.coords.as_slice(), dir.map(|d| arr(&d)), scale, w.norm());
+            let d = Distance3::new(a, b, dir);
+            let u = d.direction.into_inner();
+            let proj = u.x * w.x + u.y * w.y + u.z * w.z;
+            let tol = 1e-12 * w.norm();
+            r.check((d.value() - proj).abs() <= tol, "distance far from the origin: value equals the projection of b-a on the direction within 1e-12 of the separation", || format!("{}: value {:e}, projection {:e}", how(), d.value(), proj));
+            if dir.is_none() { r.check((d.value() - w.norm()).abs() <= tol, "distance far from the origin: with the default direction the value is the full distance within 1e-12 of the separation", || format!("{}: value {:e}", how(), d.value())); }
+            let rev = d.reversed();
+            r.check((rev.value() - d.value()).abs() <= tol, "distance far from the origin: value is unchanged by reversal within 1e-12 of the separation", || format!("{}: value {:e}, reversed {:e}", how(), d.value(), rev.value()));
+        }
+    } } } } }
+    let offs2 = [Vector2::new(1.0, 1.0), Vector2::new(-0.5, 0.75), Vector2::new(0.3, -0.9)];
+    let dirs2 = [Vector2::new(1.0, 0.0), Vector2::new(0.0, -1.0), Vector2::new(0.6, 0.8), Vector2::new(-1.0, 1.0), Vector2::new(-5.0, -12.0)];
+    for scale in [1e3, 1e6] { for o in offs2.iter() { for v in dirs2.iter() { for s in seps.iter() { for sign in [1.0, -1.0] {
+        let a = Point2::from(o * scale);
+        let b = a + v.normalize() * (*s * sign);
+        let w = b - a;
+        for k in 0..=dirs2.len() {
+            let dir = if k == 0 { None } else { Some(UnitVec2::new_normalize(dirs2[k - 1])) };
+            r.case();
+            let how = || format!("Distance2::new({:?}, {:?}, {:?}) (|a| ~ {:e}, separation {:e})", a.coords.as_slice(), b.coords.as_slice(), dir.map(|d| [d.x, d.y]), scale, w.norm());
+            let d = Distance2::new(a, b, dir);
+            let u = d.direction.into_inner();
+            let proj = u.x * w.x + u.y * w.y;
+            let tol = 1e-12 * w.norm();
+            r.check((d.value() - proj).abs() <= tol, "distance far from the origin: value equals the projection of b-a on the direction within 1e-12 of the separation", || format!("{}: value {:e}, projection {:e}", how(), d.value(), proj));
+            let rev = d.reversed();
+            r.check((rev.value() - d.value()).abs() <= tol, "distance far from the origin: value is unchanged by reversal within 1e-12 of the separation", || format!("{}: value {:e}, reversed {:e}", how(), d.value(), rev.value()));
+        }
+    } } } } }
+}
+
 // ------------------------------------------------------------------------------------------------ (d) curve deviations
 const DISTS: [f64; 5] = [1e-7, 1e-5, 1e-4, 1e-2, 1.0];
 
@@ -660,11 +709,12 @@ pub fn run() -> Option<Report> {
     let mut r = Report::new("deviation sets: all push histories of length <= 5 over 7 values incl. ties and one-ulp neighbours, from default() and new(prefix); \
 tolerance maps: all ascending tables of length 0..=4 over 5 breakpoints, x at breakpoints, one-ulp neighbours, midpoints, below the start, beyond the end; \
 point clouds: all sequences of <= 3 operations (append / merge / create_from_indices, every presence combination) from 12 starts, try_new over all presence/length combinations; \
-distances on integer points with 9 directions; curve / mesh deviations on a square of side 4, an open polyline and a 4x4x4 box at offsets 1e-7, 1e-5, 1e-4, 1e-2, 1 on both sides, off corners and beyond ends");
+distances on integer points with 9 directions, and with end points offset by 1e3 and 1e6 from the origin (4 offsets in 3D, 3 in 2D) at separations 1e-3, 1e-2, 0.1, 1 along and against 6 (5) unit vectors, measured along the default and 6 (5) given directions, tolerance 1e-12 of the separation; curve / mesh deviations on a square of side 4, an open polyline and a 4x4x4 box at offsets 1e-7, 1e-5, 1e-4, 1e-2, 1 on both sides, off corners and beyond ends");
     deviation_sets(&mut r);
     tolerance_maps(&mut r);
     point_clouds(&mut r);
     distances(&mut r);
+    far_distances(&mut r);
     curve_deviations(&mut r);
     mesh_deviations(&mut r);
     Some(r)
